@@ -135,7 +135,12 @@ func printStmt(b *strings.Builder, s *N, d int) {
 		ind(b, d)
 		b.WriteString("}\n")
 	case "forin":
-		b.WriteString("for " + strings.Join(s.Ps, ", ") + " in " + ExprString(s.Ns[0]) + " {\n")
+		it := ExprString(s.Ns[0])
+		if s.B && s.Ns[0].K == "list" {
+			// over a channel: gchc(items...) is a closed buffered channel holding the items
+			it = "gchc(" + exprList(s.Ns[0].Ns) + ")"
+		}
+		b.WriteString("for " + strings.Join(s.Ps, ", ") + " in " + it + " {\n")
 		printBlock(b, s.Ss[0], d+1)
 		ind(b, d)
 		b.WriteString("}\n")
